@@ -38,7 +38,7 @@ fn connect(src: IpAddr, port: u16) -> Option<TcpStream> {
 }
 
 pub enum Reply {
-    Ok { body: Vec<u8>, frame: String },
+    Ok { body: Vec<u8>, frame: String, head: Vec<u8> },
     None(String),
 }
 
@@ -74,7 +74,7 @@ pub fn read_response(s: &mut TcpStream) -> Reply {
     if buf.len() > head_end + cl_num { frame = format!("{}-extra-bytes-after-body", buf.len() - head_end - cl_num); }
     let body = buf[head_end..head_end + cl_num].to_vec();
     if !body.ends_with(b"\r\n") { frame = "body-not-ending-in-crlf".into(); }
-    Reply::Ok { body: body[..body.len().saturating_sub(2)].to_vec(), frame }
+    Reply::Ok { body: body[..body.len().saturating_sub(2)].to_vec(), frame, head: buf[..head_end].to_vec() }
 }
 
 /// writes the request in up to three TCP segments
@@ -183,7 +183,8 @@ pub fn run(out: &mut impl Write, seed: u64, cases: usize, _replay: &str) {
                     conns[ci].stream = None;
                     writeln!(out, "{} => NOREPLY {}", line, why).unwrap();
                 }
-                Reply::Ok { body, frame } => {
+                Reply::Ok { body, frame, head } => {
+                    let frame = format!("{} H:{}:{}", frame, hex(&head), body.len());
                     if !keep_alive { conns[ci].stream = None; }
                     match Response::parse_bytes(&body) {
                         Ok(Response::Announce(a)) => {
